@@ -176,6 +176,27 @@ func ruleP2(c *Ctx, id string) {
 					}
 				}
 			}
+			if !isLimit && br.Cond.Op == token.ILLEGAL {
+				// "limit reached?" computed by an accounting helper that is handed a limit parameter
+				cv := stripConv(br.Cond.X)
+				var hc *ssa.Call
+				if ex, ok := cv.(*ssa.Extract); ok {
+					hc, _ = ex.Tuple.(*ssa.Call)
+				} else {
+					hc, _ = cv.(*ssa.Call)
+				}
+				if hc != nil && hc.Call.StaticCallee() != nil && isPrivateHelper(hc.Call.StaticCallee()) {
+					for _, a := range hc.Call.Args {
+						if pm, ok := stripConv(a).(*ssa.Parameter); ok {
+							for i, q := range s.Params {
+								if q == pm && i > 2 && q != fparam {
+									isLimit = true
+								}
+							}
+						}
+					}
+				}
+			}
 			if !isLimit {
 				continue
 			}
